@@ -678,6 +678,8 @@ fn apply_inherent_raw(op: &Op) -> Outcome {
                     CopyMode::All(x) => c.chmod_all(*x),
                     CopyMode::Dirs(x) => c.chmod_dirs(*x),
                     CopyMode::Files(x) => c.chmod_files(*x),
+                    CopyMode::DirsThenAll(a, b) => c.chmod_dirs(*a).chmod_all(*b),
+                    CopyMode::FilesThenAll(a, b) => c.chmod_files(*a).chmod_all(*b),
                 };
                 c.follow(*follow).exec()
             }),
